@@ -1007,28 +1007,58 @@ End StepSim.
 Section Slash.
 Variable cf es : bool.
 
-Ltac slash_crush H :=
+Lemma none_tail_slash st c st1 : none_tail st c = Ok st1 -> s_slash st1 = true -> Ascii.eqb c SLASH = true.
+Proof.
+  unfold none_tail. destruct (parse_none [] st c) as [[s2 []]|]; intros H Hs; try discriminate;
+    injection H as <-; cbn in Hs; [discriminate|assumption].
+Qed.
+Lemma string_tail_slash st c st1 : string_tail st c = Ok st1 -> s_slash st1 = true -> Ascii.eqb c SLASH = true.
+Proof.
+  unfold string_tail. destruct (parse_string [] st c); intros H Hs; try discriminate. injection H as <-. exact Hs.
+Qed.
+
+Lemma paren_true_slash st c st2 :
+  parse_paren [] cf es st c = Ok (st2, true) -> s_slash st2 = s_slash st && Ascii.eqb c SLASH.
+Proof.
+  unfold parse_paren. cbn zeta.
+  change (s_instr (push_char st c)) with (s_instr st). change (s_incmt (push_char st c)) with (s_incmt st).
+  destruct (s_instr st).
+  { intros H. repeat (break_hyp; inv_ok; try discriminate). }
+  destruct (s_incmt st); [discriminate|].
+  match goal with |- (if ?x then _ else _) = _ -> _ => destruct x end.
+  2:{ intros H. repeat (break_hyp; inv_ok; try discriminate). }
+  rewrite append_nil. intros H.
   repeat (break_hyp; inv_ok; try discriminate); inv_ok;
-  repeat match goal with
-         | A : append_token [] _ _ = Ok _ |- _ => rewrite append_nil in A; injection A as A; subst
-         | A : append_keywords _ = Ok _ |- _ => unfold append_keywords in A; destruct (s_kws _); inv_ok
-         end;
-  cbn in *; try discriminate;
-  repeat match goal with
-         | A : Ascii.eqb ?c SLASH = true |- ?c = SLASH => apply Ascii.eqb_eq; exact A
-         | A : (_ && Ascii.eqb ?c SLASH) = true |- ?c = SLASH => apply andb_true_iff in A; destruct A as [_ A]; apply Ascii.eqb_eq; exact A
-         end.
+    try (unfold append_keywords in *; cbn in *; inv_ok); cbn; reflexivity.
+Qed.
+
+Lemma paren_tail_slash st c st1 : paren_tail cf es st c = Ok st1 -> s_slash st1 = true -> Ascii.eqb c SLASH = true.
+Proof.
+  unfold paren_tail. destruct (parse_paren [] cf es st c) as [[s2 []]|] eqn:E; intros H Hs; try discriminate; injection H as <-.
+  - rewrite (paren_true_slash _ _ _ E) in Hs. apply andb_true_iff in Hs. apply Hs.
+  - exact Hs.
+Qed.
 
 Lemma step_slash st c st1 :
   is_nl c = false -> step [] cf es st c = Ok st1 -> s_slash st1 = true -> c = SLASH.
 Proof.
-  intros Hnl H Hs.
+  intros Hnl H Hs. apply Ascii.eqb_eq.
   destruct (Ascii.eqb c SLASH && s_slash st && match s_kind st with SParen | SString => false | _ => true end) eqn:Ec.
-  { apply andb_true_iff in Ec. destruct Ec as [Ec _]. apply andb_true_iff in Ec. destruct Ec as [Ec _].
-    apply Ascii.eqb_eq. assumption. }
+  { apply andb_true_iff in Ec. destruct Ec as [Ec _]. apply andb_true_iff in Ec. apply Ec. }
   rewrite (step_decomp cf es st c Hnl Ec) in H. cbn zeta in H.
-  unfold none_tail, string_tail, paren_tail, parse_none, parse_string, parse_paren, parse_kw_op in H.
-  destruct (Ascii.eqb c SLASH) eqn:Esl; [apply Ascii.eqb_eq; assumption|]. exfalso.
-  slash_crush H; congruence.
+  destruct (Ascii.eqb c SEMI && _ && negb es); [discriminate|].
+  destruct (s_kind st).
+  - eapply none_tail_slash; eauto.
+  - destruct (parse_kw_op [] es _ c) as [[s1 []]|]; try discriminate.
+    + injection H as <-. exact Hs.
+    + destruct (s_kind s1); first [solve [eapply none_tail_slash; eauto] | solve [eapply string_tail_slash; eauto]
+                                  | solve [eapply paren_tail_slash; eauto] | injection H as <-; exact Hs].
+  - destruct (parse_kw_op [] es _ c) as [[s1 []]|]; try discriminate.
+    + injection H as <-. exact Hs.
+    + destruct (s_kind s1); first [solve [eapply none_tail_slash; eauto] | solve [eapply string_tail_slash; eauto]
+                                  | solve [eapply paren_tail_slash; eauto] | injection H as <-; exact Hs].
+  - eapply string_tail_slash; eauto.
+  - eapply paren_tail_slash; eauto.
+  - injection H as <-. exact Hs.
 Qed.
 End Slash.
